@@ -213,12 +213,10 @@ order (so, with `C11_last_wins`, a later source overrides an earlier one). -/
 theorem C11_order (c : Call) (hthrow : c.throwing = false) (st : St)
     (srcEnv srcArg : List (Bytes × List (Item × Bytes)))
     (hE : envSources c = srcEnv.map (fun x => x.1 ++ renderAll x.2))
-    (hEwf : ∀ x ∈ srcEnv, Blank x.1 ∧
-      ItemsWF { table := c.table, noEcho := c.noEcho, cmdLine := c.cmdLineFlag, throwing := c.throwing } x.2)
+    (hEwf : ∀ x ∈ srcEnv, Blank x.1 ∧ ItemsWF c.cfgEnv x.2)
     (hA : c.argv.getD [] = srcArg.map (fun x => x.1 ++ renderAll x.2))
-    (hAwf : ∀ x ∈ srcArg, Blank x.1 ∧
-      ItemsWF { table := c.table, noEcho := c.noEcho, cmdLine := true, throwing := c.throwing } x.2) :
-    parseOptions c st = (.ok, applyAll { table := c.table, noEcho := c.noEcho, cmdLine := true, throwing := c.throwing }
+    (hAwf : ∀ x ∈ srcArg, Blank x.1 ∧ ItemsWF c.cfgArg x.2) :
+    parseOptions c st = (.ok, applyAll c.cfgArg
       ((srcEnv.map (·.2)).flatten ++ (srcArg.map (·.2)).flatten) { st with errs := [] }) := by
   unfold parseOptions
   simp only [hE, hA]
